@@ -430,6 +430,83 @@ fn block_laws(b: &BlockView, report: &mut Report) {
     }
 }
 
+/// The hashes against their definitions, computed here from the serialized bytes with nothing but
+/// blake2b-256 ("ckb-default-hash") - the view caches, the builders and the `calc_*` helpers are
+/// otherwise only ever compared with each other.
+fn hash_definitions(report: &mut Report) {
+    let h = |parts: &[&[u8]]| -> [u8; 32] {
+        let mut b = ckb_hash::new_blake2b();
+        for p in parts {
+            b.update(p);
+        }
+        let mut out = [0u8; 32];
+        b.finalize(&mut out);
+        out
+    };
+    // complete binary merkle tree over 32-byte leaves: nodes[i] = H(nodes[2i+1] || nodes[2i+2])
+    let cbmt = |leaves: &[[u8; 32]]| -> [u8; 32] {
+        if leaves.is_empty() {
+            return [0u8; 32];
+        }
+        let n = leaves.len();
+        let mut nodes = vec![[0u8; 32]; n - 1];
+        nodes.extend_from_slice(leaves);
+        for i in (0..n - 1).rev() {
+            nodes[i] = h(&[&nodes[2 * i + 1], &nodes[2 * i + 2]]);
+        }
+        nodes[0]
+    };
+    let check = |what: &str, got: &[u8], want: &[u8; 32], label: serde_json::Value, report: &mut Report| {
+        report.evaluations += 1;
+        if got != want {
+            report.violation(format!("hash-definition/{what}"), format!("{what}: the library gives {}, the definition gives {}", hex(got), hex(want)), label);
+        } else {
+            report.nontrivial.insert(fp(&(what, got)));
+        }
+    };
+    // cell data: 32 zero bytes for empty data, blake2b of the data otherwise
+    for data in [vec![], vec![0u8], vec![7u8; 3], vec![0u8; 32], (0..=255u8).collect::<Vec<u8>>(), vec![9u8; 4096]] {
+        let want = if data.is_empty() { [0u8; 32] } else { h(&[&data]) };
+        check("cell-data-hash", packed::CellOutput::calc_data_hash(&data).as_slice(), &want, json!({"family": "hash-definition", "data_len": data.len()}), report);
+    }
+    for s in zoo::scripts() {
+        check("script-hash", s.calc_script_hash().as_slice(), &h(&[s.as_slice()]), json!({"family": "hash-definition", "script": hex(s.as_slice())}), report);
+    }
+    for t in zoo::transactions() {
+        let label = json!({"family": "hash-definition", "tx": hex(t.data().as_slice())});
+        check("tx-hash", t.hash().as_slice(), &h(&[t.data().raw().as_slice()]), label.clone(), report);
+        check("tx-hash", t.data().calc_tx_hash().as_slice(), &h(&[t.data().raw().as_slice()]), label.clone(), report);
+        check("witness-hash", t.witness_hash().as_slice(), &h(&[t.data().as_slice()]), label.clone(), report);
+    }
+    for hd in zoo::headers() {
+        check("header-hash", hd.hash().as_slice(), &h(&[hd.data().as_slice()]), json!({"family": "hash-definition", "header": hex(hd.data().as_slice())}), report);
+    }
+    for b in zoo::blocks() {
+        let label = json!({"family": "hash-definition", "block": hex(b.data().as_slice())});
+        // proposals: zero for none, blake2b over the concatenated 10-byte ids otherwise
+        let ids: Vec<u8> = b.data().proposals().into_iter().flat_map(|p| p.as_slice().to_vec()).collect();
+        let want_p = if ids.is_empty() { [0u8; 32] } else { h(&[&ids]) };
+        check("proposals-hash", b.data().as_reader().calc_proposals_hash().as_slice(), &want_p, label.clone(), report);
+        // uncles: zero for none, blake2b over the concatenated uncle header hashes otherwise
+        let uh: Vec<u8> = b.data().uncles().into_iter().flat_map(|u| h(&[u.header().as_slice()]).to_vec()).collect();
+        let want_u = if uh.is_empty() { [0u8; 32] } else { h(&[&uh]) };
+        check("uncles-hash", b.calc_uncles_hash().as_slice(), &want_u, label.clone(), report);
+        // extra hash: the uncles hash without an extension, H(uncles hash || H(extension)) with one
+        let want_e = match b.extension() {
+            None => want_u,
+            Some(e) => h(&[&want_u, &h(&[&e.raw_data()])]),
+        };
+        check("extra-hash", b.calc_extra_hash().extra_hash().as_slice(), &want_e, label.clone(), report);
+        // transactions root: the root over (root of the tx hashes, root of the witness hashes)
+        let th: Vec<[u8; 32]> = b.transactions().iter().map(|t| h(&[t.data().raw().as_slice()])).collect();
+        let wh: Vec<[u8; 32]> = b.transactions().iter().map(|t| h(&[t.data().as_slice()])).collect();
+        let want_r = cbmt(&[cbmt(&th), cbmt(&wh)]);
+        check("transactions-root", b.calc_transactions_root().as_slice(), &want_r, label.clone(), report);
+        check("witnesses-root", b.calc_witnesses_root().as_slice(), &cbmt(&wh), label.clone(), report);
+    }
+    report.outcomes.insert(fp(&"hash-definitions"));
+}
+
 pub fn meta(_tier: Tier) -> Meta {
     Meta {
         id: "C15",
@@ -569,6 +646,7 @@ pub fn run(_ctx: &Ctx) -> Report {
             }
         }
     }
+    hash_definitions(&mut report);
     let _ = std::panic::take_hook();
     report.traces = report.evaluations;
     report.transitions = report.evaluations;
